@@ -19,4 +19,5 @@ extern int g_fn_n;                     /* ghost: number of collected call argume
 extern cfg_value_t *g_fn_val[3];       /* ghost: the collected argument slots (owned by the vector) */
 extern int g_diag_issued_by_lookup;
 extern cfg_opt_t *g_argvec;
+extern _Bool g_lookup_by_name;
 #endif
